@@ -10,8 +10,10 @@
 EXTENDS Valset, Json
 Trace == ndJsonDeserialize("trace.ndjson")
 RealSentences == <<60, 300, 900, 3600, 86400>>
-VARIABLES l, rq, part
-tvars == <<vars, l, rq, part>>
+VARIABLES l, rq, part,
+          sfp,      \* id -> fingerprint of the complete stored snapshot record (all fields but the chain list)
+          issued    \* number of snapshot ids handed out so far (initial snapshot + successful builds)
+tvars == <<vars, l, rq, part, sfp, issued>>
 
 Report(name, cond) == cond \/ PrintT(<<"MONFAIL", name, l>>)
 Conf(name, cond)   == cond \/ PrintT(<<"CONFFAIL", name, l>>)
@@ -30,6 +32,7 @@ ObsStaking(o) ==
 SnapOf(r) == LET I == DOMAIN r.vals  V == {r.vals[i].v : i \in I}
                  at(v) == CHOOSE i \in I : r.vals[i].v = v
              IN  [vals |-> V, share |-> [v \in V |-> r.vals[at(v)].share], accts |-> [v \in V |-> SeqSet(r.vals[at(v)].accts)],
+                  gen |-> [v \in V |-> r.vals[at(v)].gen],
                   total |-> r.total, chains |-> r.chains, at |-> r.at]
 SnapsOf(s) == LET ids == {s[i].id : i \in DOMAIN s} IN [id \in ids |-> SnapOf(s[CHOOSE i \in DOMAIN s : s[i].id = id])]
 \* the newest UpdateValset message in the queue of chain c
@@ -39,14 +42,20 @@ RqOf(q, c) == IF MsgsOf(q, c) = {} THEN NoRq
               ELSE LET m == NewestOf(q, c)  V == {m.vals[i].v : i \in DOMAIN m.vals}
                        at(v) == CHOOSE i \in DOMAIN m.vals : m.vals[i].v = v
                    IN [id |-> m.id, mid |-> m.mid, pw |-> [v \in V |-> <<m.vals[at(v)].hi, m.vals[at(v)].lo>>], n |-> Len(m.vals)]
-ObsSnap(o) ==
+FpOf(s) == LET ids == {s[i].id : i \in DOMAIN s} IN [id \in ids |-> s[CHOOSE i \in DOMAIN s : s[i].id = id].fp]
+\* rot: the validator whose account record was successfully re-registered with another key / trait in this step (0: none);
+\* the generation of a validator without any account cannot be read off the store and is carried by the model
+ObsSnapR(o, rot) ==
   /\ accts' = [v \in Vals |-> SeqSet(o.accts[v])]
+  /\ gen' = [v \in Vals |-> IF o.gen[v] >= 0 THEN o.gen[v] ELSE IF v = rot THEN gen[v] + 1 ELSE gen[v]]
+  /\ sfp' = FpOf(o.snaps)
   /\ active' = SeqSet(o.active)
   /\ lastId' = o.cur
   /\ snaps' = SnapsOf(o.snaps)
   /\ rq' = [c \in Chains |-> RqOf(o.queue, c)]
   /\ queue' = [c \in Chains |-> IF rq'[c] = NoRq THEN NoMsg ELSE [id |-> rq'[c].id, pw |-> [v \in DOMAIN rq'[c].pw |-> rq'[c].pw[v][1]]]]
   /\ now' = o.now
+ObsSnap(o) == ObsSnapR(o, 0)
 
 \* exact arithmetic at 2^32 in base 2^16
 B == 65536
@@ -74,8 +83,11 @@ AlwaysS(e) ==
                                 /\ \A i \in DOMAIN e.obs.snaps : e.obs.snaps[i].trem = 0 /\ \A j \in DOMAIN e.obs.snaps[i].vals : e.obs.snaps[i].vals[j].rem = 0)
   /\ Report("C10.SnapshotFaithful", FaithfulStep)
   /\ Report("C10.IdsIncrease", IdsIncreaseStep)
-  /\ Report("C10.CurrentIsHighest", DOMAIN snaps' # {} => lastId' = MaxOf(DOMAIN snaps'))
-  /\ Report("C10.Immutable", ImmutableStep)
+  \* the current snapshot, by the keeper getter and by the query with id 0, is the one with the highest id ever issued
+  /\ Report("C10.CurrentIsHighest", /\ DOMAIN snaps' # {} => lastId' = MaxOf(DOMAIN snaps')
+                                     /\ lastId' = issued' /\ e.obs.curq = issued' /\ DOMAIN snaps' = 1..issued')
+  \* ... and no stored record changes in any field (addresses, keys, balances, traits, shares) except its chain list
+  /\ Report("C10.Immutable", ImmutableStep /\ \A id \in DOMAIN sfp : id \in DOMAIN sfp' /\ sfp'[id] = sfp[id])
   /\ Report("C10.ProjectionCorrect", \A c \in Chains : ProjectionOK(c))
   /\ Report("C10.PublishGate", \A c \in Chains : GateOKHL(c))
   /\ Report("C10.PublishesCurrent", \A c \in Chains : Sent(c) => rq'[c].id = lastId')
@@ -91,17 +103,20 @@ TrInitS == IsEvent("InitS") /\ LET e == Trace[l] IN
   /\ h' = 1 /\ aliveUntil' = [v \in Vals |-> 0] /\ grace' = [v \in Vals |-> 0] /\ prev' = {}
   /\ jailLog' = [v \in Vals |-> [dur |-> Sentences[1], at |-> NoTime]] /\ until' = [v \in Vals |-> 0] /\ jhist' = [v \in Vals |-> <<>>]
   /\ minVer' = DefaultVer /\ sched' = NoSched
-  /\ last' = [act |-> "Init", ok |-> TRUE] /\ part' = "snap"
+  /\ last' = [act |-> "Init", ok |-> TRUE] /\ part' = "snap" /\ issued' = 1
   /\ Report("Setup.Constants", e.maxvals = MaxVals /\ e.unbond = UnbondTime /\ e.nchains = Cardinality(Chains) /\ Len(e.obs.stake) = N)
   /\ Report("Setup.InitialSnapshot", DOMAIN snaps' = {1} /\ lastId' = 1 /\ \A c \in Chains : rq'[c] = NoRq)
+  /\ Report("Setup.Generation", \A v \in Vals : gen'[v] = 0)
   /\ Conf("InitS", status' = InitStatus(stake') /\ snaps'[1].vals = Vals /\ snaps'[1].share = stake')
 
 \* generic C10 step: bind, keep the unobserved parts, evaluate the monitors, compare with the spec action
-StepS(e, spec) ==
-  /\ ObsStaking(e.obs) /\ ObsSnap(e.obs) /\ KeepAliveVars /\ part' = part
+StepSR(e, spec, rot) ==
+  /\ ObsStaking(e.obs) /\ ObsSnapR(e.obs, rot) /\ KeepAliveVars /\ part' = part
+  /\ issued' = IF e.act = "Build" /\ e.res = "ok" THEN issued + 1 ELSE issued
   /\ last' = [act |-> e.act, ok |-> (e.res = "ok")]
   /\ AlwaysS(e)
   /\ Conf(e.act, spec)
+StepS(e, spec) == StepSR(e, spec, 0)
 
 TrBuild == IsEvent("Build") /\ LET e == Trace[l] IN
   /\ UNCHANGED <<deleg, unbondAt>>
@@ -114,6 +129,12 @@ TrPublish == IsEvent("Publish") /\ LET e == Trace[l] IN
   /\ UNCHANGED <<deleg, unbondAt>> /\ StepS(e, Publish(e.args.force, {}))
 TrRegister == IsEvent("Register") /\ LET e == Trace[l] IN
   /\ UNCHANGED <<deleg, unbondAt>> /\ StepS(e, Register(e.args.v, SeqSet(e.args.cs)))
+TrRotate == IsEvent("Rotate") /\ LET e == Trace[l] IN
+  /\ UNCHANGED <<deleg, unbondAt>> /\ StepSR(e, Rotate(e.args.v), IF Ok(e) THEN e.args.v ELSE 0)
+  /\ Report("C10.RotateKeepsChains", accts' = accts)
+TrSetBalance == IsEvent("SetBalance") /\ LET e == Trace[l] IN
+  /\ UNCHANGED <<deleg, unbondAt>> /\ StepS(e, SetBalance(e.args.v, e.args.c))
+  /\ Report("C10.BalanceReportKeepsAccounts", accts' = accts /\ gen' = gen)
 TrActivate == IsEvent("Activate") /\ LET e == Trace[l] IN
   /\ UNCHANGED <<deleg, unbondAt>> /\ StepS(e, Activate(e.args.c))
 TrDelegate == IsEvent("Delegate") /\ LET e == Trace[l] IN
@@ -135,7 +156,7 @@ ObsAlive(o) ==
   /\ until' = [v \in Vals |-> o.until[v]]
   /\ minVer' = o.minVer /\ sched' = [ver |-> o.sched.ver, target |-> o.sched.target]
   /\ h' = o.h /\ now' = o.now
-SnapVarsKept == UNCHANGED <<accts, active, snaps, lastId, queue, rq, deleg>>
+SnapVarsKept == UNCHANGED <<accts, gen, active, snaps, lastId, queue, rq, deleg, sfp, issued>>
 Newly == {v \in Vals : jailed'[v] /\ ~jailed[v]}
 \* the sentence actually served is read from the slashing signing info (JailedUntil)
 JhistAfter(t) == [v \in Vals |-> IF v \in Newly THEN Append(jhist[v], [at |-> t, dur |-> until'[v] - t]) ELSE jhist[v]]
@@ -145,7 +166,7 @@ VName(v) == ToString(v)
 TrInitK == IsEvent("InitK") /\ LET e == Trace[l] IN
   /\ ObsAlive(e.obs)
   /\ deleg' = [v \in Vals |-> 0] /\ unbondAt' = [v \in Vals |-> IF e.obs.status[v] = 1 THEN e.obs.now + UnbondTime ELSE 0]
-  /\ accts' = [v \in Vals |-> Chains] /\ active' = Chains /\ snaps' = <<>> /\ lastId' = 0 /\ queue' = [c \in Chains |-> NoMsg] /\ rq' = [c \in Chains |-> NoRq]
+  /\ accts' = [v \in Vals |-> Chains] /\ gen' = [v \in Vals |-> 0] /\ sfp' = <<>> /\ issued' = 0 /\ active' = Chains /\ snaps' = <<>> /\ lastId' = 0 /\ queue' = [c \in Chains |-> NoMsg] /\ rq' = [c \in Chains |-> NoRq]
   /\ grace' = [v \in Vals |-> 0] /\ prev' = {}
   /\ jailLog' = [v \in Vals |-> [dur |-> Sentences[1], at |-> NoTime]] /\ jhist' = [v \in Vals |-> <<>>]
   /\ last' = [act |-> "Init", ok |-> TRUE]
@@ -233,8 +254,8 @@ TrSetMinVersion == IsEvent("SetMinVersion") /\ LET e == Trace[l] IN
   /\ Conf("SetMinVersion", SetMinVersion(e.args.ver, e.args.target))
 
 TraceInit == /\ InitWith([v \in Vals |-> 1], [v \in Vals |-> Chains], {}, [v \in Vals |-> "bonded"])
-             /\ l = 1 /\ rq = [c \in Chains |-> NoRq] /\ part = "none"
-TraceNext == \/ TrInitS \/ TrBuild \/ TrSetOnChain \/ TrPublish \/ TrRegister \/ TrActivate \/ TrDelegate \/ TrUndelegate
+             /\ l = 1 /\ rq = [c \in Chains |-> NoRq] /\ part = "none" /\ sfp = <<>> /\ issued = 0
+TraceNext == \/ TrInitS \/ TrBuild \/ TrSetOnChain \/ TrPublish \/ TrRegister \/ TrRotate \/ TrSetBalance \/ TrActivate \/ TrDelegate \/ TrUndelegate
              \/ TrJailF \/ TrStakingEB \/ TrUnjail
              \/ TrInitK \/ TrBlocks \/ TrKeepAlive \/ TrJail \/ TrSetMinVersion
 TraceAccepted == TLCGet("stats").diameter - 1 = Len(Trace)
